@@ -2,6 +2,7 @@ package world
 
 import (
 	"context"
+	"encoding/json"
 	"fmt"
 	"net"
 	"os"
@@ -199,7 +200,14 @@ func (r *Runner) RunRemote(ctx context.Context, sc *Scenario, binary string) err
 	if len(spec.Wallets) == 0 && spec.NKeys == 0 {
 		spec.NKeys = 4
 	}
-	env, err := PrepareExternal(ctx, r.Log, "bare", binary, spec, map[string]map[string]string{"c1": {"W1": "All"}})
+	perms := map[string]map[string]string{"c1": {"W1": "All"}}
+	if pj := os.Getenv("VERIF_REMOTE_PERMS"); pj != "" {
+		// development aid: another permission block for the binary's configuration file
+		if err := json.Unmarshal([]byte(pj), &perms); err != nil {
+			return err
+		}
+	}
+	env, err := PrepareExternal(ctx, r.Log, "bare", binary, spec, perms)
 	if err != nil {
 		return err
 	}
